@@ -168,6 +168,82 @@ func checkC17(c *Check) {
 
 	// ---------- 5: per-environment serialisation ----------
 	checkHostMutex(c)
+
+	// ---------- 7: nothing process-wide is consulted or held ----------
+	// (a) resource usage of a run comes from the rusage of its own wait4 only: no getrusage(RUSAGE_CHILDREN) /
+	//     times(2), whose counters include every other run reaped meanwhile
+	var acct []string
+	for _, pk := range p.Pkgs {
+		if strings.Contains(pk.PkgPath, "/cmd/") {
+			continue
+		}
+		rel := strings.TrimPrefix(pk.PkgPath, repoModule+"/")
+		for _, fn := range p.PkgFuncs(rel) {
+			for _, ci := range callInstrs(fn) {
+				n, _ := calleeOf(ci)
+				short := n[strings.LastIndex(n, ".")+1:]
+				if (short == "Getrusage" || short == "Times") && (strings.HasPrefix(n, "syscall.") || strings.HasPrefix(n, "golang.org/x/sys/unix.")) {
+					acct = append(acct, rel+"."+fn.Name()+"@"+p.Pos(ci.Pos()))
+				}
+			}
+		}
+	}
+	c.Cond(len(acct) == 0, "7/nothing-process-wide", "library:no-process-wide-accounting", "-", "no getrusage / times in the library packages", "process-wide accounting is consulted at "+strings.Join(acct, ", ")+": a run is charged the resources of every other run reaped while it was running")
+	// (b) a system call that can block for long (read, wait4, recvmsg, poll ...) is issued from ordinary Go code
+	//     through syscall.Syscall, which tells the scheduler; through RawSyscall the goroutine keeps its processor
+	//     while blocked, and GOMAXPROCS such goroutines stop the whole process. (The forked child is exempt: it
+	//     must not enter the scheduler.)
+	if r, err := buildE1(p); err == nil {
+		childSide := map[*ssa.Function]bool{r.Child: true}
+		for f := range r.ExitFns {
+			childSide[f] = true
+		}
+		for _, ci := range callInstrsDeep(r.Child, 2) {
+			if callee := ci.Common().StaticCallee(); callee != nil && inModule(callee) {
+				childSide[callee] = true
+			}
+		}
+		blocking := map[int64]string{p.Sys("SYS_READ"): "read", p.Sys("SYS_WAIT4"): "wait4", p.Sys("SYS_RECVMSG"): "recvmsg", p.Sys("SYS_PPOLL"): "ppoll", p.Sys("SYS_NANOSLEEP"): "nanosleep"}
+		var raw []string
+		nSys := 0
+		for _, pk := range p.Pkgs {
+			if strings.Contains(pk.PkgPath, "/cmd/") {
+				continue
+			}
+			rel := strings.TrimPrefix(pk.PkgPath, repoModule+"/")
+			for _, fn := range p.PkgFuncs(rel) {
+				root := fn
+				for root.Parent() != nil {
+					root = root.Parent()
+				}
+				if childSide[root] {
+					continue
+				}
+				for _, ci := range callInstrs(fn) {
+					n, _ := calleeOf(ci)
+					if len(ci.Common().Args) == 0 {
+						continue
+					}
+					nr, isC := constInt(ci.Common().Args[0])
+					if !isC {
+						continue
+					}
+					name, isBlocking := blocking[nr]
+					if !isBlocking {
+						continue
+					}
+					if isRawSyscallName(n) {
+						raw = append(raw, name+" in "+rel+"."+fn.Name()+"@"+p.Pos(ci.Pos()))
+					} else if n == "syscall.Syscall" || n == "syscall.Syscall6" {
+						nSys++
+					}
+				}
+			}
+		}
+		c.Cond(len(raw) == 0 && nSys >= 1, "7/nothing-process-wide", "library:blocking-calls-tell-the-scheduler", "-", fmt.Sprintf("%d blocking raw system call site(s) outside the forked child, all through syscall.Syscall", nSys),
+			"a blocking system call is issued through RawSyscall outside the forked child ("+strings.Join(raw, ", ")+"): the goroutine keeps its scheduler slot while blocked; as many concurrent launches as GOMAXPROCS freeze the process")
+	}
+	c.Expect("7/nothing-process-wide", 2)
 }
 
 // checkCloexecBirth: descriptors created outside the fork lock are born close-on-exec.
